@@ -196,6 +196,17 @@ def hist_concs(quick, impls):
                 if kind == 'ft' and (field == 'C' or hcflag):
                     concs.append({'kind': kind, 'impl': impl, 'field': field, 'hcflag': hcflag, 'shape': [3, 4],
                                   'prec': 64, 'inv_mode': 'fresh', 'tmp': 'given', 'subset': 'scribble'})
+                # the sign option: wherever the constructors accept '+' (no effective half-complex storage) every
+                # history is also run on an operator whose sign differs from the default of its class - T has
+                # sign '+', the kept T.inverse (planinv / tempsinv / inv) has sign '-' - plain and as a derived T
+                if not (field == 'R' and hcflag):
+                    concs.append({'kind': kind, 'impl': impl, 'field': field, 'hcflag': hcflag, 'shape': [3, 4],
+                                  'prec': 64, 'inv_mode': 'fresh', 'sign': '+'})
+                    if not quick:
+                        concs.append({'kind': kind, 'impl': impl, 'field': field, 'hcflag': hcflag, 'shape': [5],
+                                      'prec': 32, 'inv_mode': 'cached', 'sign': '+'})
+                    concs.append({'kind': kind, 'impl': impl, 'field': field, 'hcflag': hcflag, 'shape': [4, 3],
+                                  'prec': 64, 'inv_mode': 'fresh', 'sign': '+', 'chain': 'ii', 'subset': 'third'})
     return concs
 
 
@@ -232,8 +243,9 @@ def run(ctx):
     timing = ctx.extra.setdefault('timing_s', {})
     ctx.rule = ('abstract case = transform configuration (kind, shape, axes, sign, effective half-complex flag, '
                 'per-axis shift, first node / stride) exported by TLC or enumerated beyond its constants, call '
-                'history of length <= 3(4) (incl. caller-side mutation of constructor arguments, on constructed and on '
-                'derived operators), derivation chain of .inverse / .adjoint to depth 2(3) over option records, wavelet layout (shape, axes, filter length, mode class, levels), wavelet '
+                'history of length <= 3(4) (incl. caller-side mutation of constructor arguments, plan / temporaries handed '
+                'to T or to a kept T.inverse, on constructed and on derived operators, default and non-default sign), '
+                'derivation chain of .inverse / .adjoint to depth 2(3) over option records (the derived object itself then receives init_fftw_plan / create_temporaries in both orders between calls), wavelet layout (shape, axes, filter length, mode class, levels), wavelet '
                 'operator (wavelet, pad mode, levels, shape); one evaluation = one projected observation '
                 '(matrix, round trip, history step, layout, relation) of a concretisation (field, flag, precision, '
                 'back-end, in-place / out-of-place, strides) compared with the specification; distinct = hash of '
@@ -663,11 +675,13 @@ def random_history(rnd, conc, length):
                 acts += [{'op': 'inv', 'x': x, 'o': 'r'}, {'op': 'invip', 'x': x, 'o': 'z'}] * 2
         if conc['impl'] == 'pyfftw':
             acts.append({'op': 'plan', 'x': '-', 'o': '-'})
+            acts.append({'op': 'planinv', 'x': '-', 'o': '-'})
             if not conc.get('chain'):      # call keywords only where the exported effort histories run, too
                 acts = [dict(a_, e=rnd.choice(['-', '-', 'estimate', 'measure']))
                         if a_['op'] != 'plan' or rnd.random() < 0.5 else a_ for a_ in acts]
         if conc['kind'] == 'ft':
             acts.append({'op': 'temps', 'x': '-', 'o': '-'})
+            acts.append({'op': 'tempsinv', 'x': '-', 'o': '-'})
         acts.append({'op': 'scribble', 'x': '-', 'o': '-'})
         a = rnd.choice(acts)
         if a['op'] == 'call':
